@@ -129,13 +129,13 @@ EmptyObj == Obj("", "", <<>>, 0, 0, 0, <<>>, <<>>, <<>>)
 \* builtin classes live at fixed heap ids
 BuiltinClasses == <<"Object", "Error", "RuntimeError", "TypeError", "IndexError", "PropertyError", "ValueError",
                     "KeyError", "ImportError", "ExportError", "SyntaxError", "FormatError", "ChannelError",
-                    "MethodNotFoundError", "DeadLockError">>
+                    "MethodNotFoundError", "DeadLockError", "List", "Tuple", "Map", "Number", "String", "Iter">>
 ClassId(name) == CHOOSE i \in 1 .. Len(BuiltinClasses) : BuiltinClasses[i] = name
 ErrFields == <<"message", "backTrace", "inner">>
 BuiltinHeap == [i \in 1 .. Len(BuiltinClasses) |->
                   Obj("class", BuiltinClasses[i], <<>>, 0, 0,
-                      IF i = 1 THEN 0 ELSE IF i = 2 THEN 1 ELSE 2,
-                      IF i = 1 THEN <<>> ELSE ErrFields, <<>>, <<>>)]
+                      IF i = 1 THEN 0 ELSE IF i = 2 \/ i > 15 THEN 1 ELSE 2,
+                      IF i = 1 \/ i > 15 THEN <<>> ELSE ErrFields, <<>>, <<>>)]
 Natives == <<"print", "exit">>
 \* root environment: builtin classes and native functions
 RootNames == BuiltinClasses \o Natives
@@ -248,6 +248,11 @@ Show(m, v) ==
     [] v.t = "str" -> v.cp
     [] v.t = "ref" /\ v.x = "list" -> <<91>> \o ShowList(m, m.heap[v.n].xs, 1) \o <<93>>
     [] v.t = "ref" /\ v.x = "tuple" -> <<40>> \o ShowList(m, m.heap[v.n].xs, 1) \o <<41>>
+    [] v.t = "ref" /\ v.x = "map" ->
+         LET xs == m.heap[v.n].xs IN
+           IF xs = <<>> THEN <<123, 125>>
+           ELSE IF Len(xs) = 2 THEN <<123, 32>> \o ShowIn(m, xs[1]) \o <<58, 32>> \o ShowIn(m, xs[2]) \o <<32, 125>>
+           ELSE <<0>>                          \* several entries: the order is not part of the contract
     [] OTHER -> CpOpaque
 ShowIn(m, v) == IF v.t = "str" THEN <<39>> \o v.cp \o <<39>> ELSE Show(m, v)
 
@@ -299,12 +304,17 @@ Enter(m, c, self, args, site) ==
              THEN [Ex(m4, body) EXCEPT !.env = e]
              ELSE [PushK(m4, Frame("exprbody", body, 0, <<>>, e)) EXCEPT !.env = e, !.ctl = Ctl("ev", body, Nil)]
 
+RECURSIVE Pull(_, _, _)
 Call(m, callee, args, site) ==
   CASE callee.t = "native" /\ callee.x = "print" ->
          IF Len(args) = 0 THEN Throw(m, "RuntimeError", site)      \* (the real VM panics here: D17; not generated)
          ELSE Val([m EXCEPT !.out = Append(@, JoinSp(m, args, 1))], Nil)
     [] callee.t = "native" /\ callee.x = "str" ->
          IF Len(args) # 1 THEN Throw(m, "RuntimeError", site) ELSE Val(m, S(Show(m, args[1])))
+    [] callee.t = "native" /\ callee.x \in {"List.collect", "Tuple.collect"} ->
+         IF Len(args) # 1 THEN Throw(m, "RuntimeError", site)
+         ELSE IF ~(args[1].t = "ref" /\ args[1].x = "iter") THEN Val(m, Poison)       \* (the real natives crash here: D6; not generated)
+         ELSE Pull(PushK(m, Frame(IF callee.x = "List.collect" THEN "c.list" ELSE "c.tuple", site, args[1].n, <<>>, m.env)), args[1].n, site)
     [] callee.t = "native" /\ callee.x = "exit" ->
          IF Len(args) > 1 \/ (Len(args) = 1 /\ ~IsInt(args[1])) THEN Throw(m, "RuntimeError", site)
          ELSE [m EXCEPT !.st = "exit:" \o ToString(IF Len(args) = 0 THEN 0 ELSE args[1].n), !.ctl = Ctl("halt", 0, Nil)]
@@ -331,6 +341,253 @@ Call(m, callee, args, site) ==
     [] OTHER -> Throw(m, "RuntimeError", site)
 
 \* ---------------------------------------------------------------------------
+\* Built-in collections, strings and iterators (C10, C11).  Lists, tuples and maps are heap objects with an
+\* identity; a map is a sequence of key/value pairs in insertion order (iteration order of real maps is not part
+\* of the contract: generated programs never depend on it); strings are sequences of code points.
+MkObj(m, k, xs) == Alloc(m, Obj(k, "", xs, 0, 0, 0, <<>>, <<>>, <<>>))
+ValNew(m, k, xs) == LET m1 == MkObj(m, k, xs) IN Val(m1, R(LastObj(m1), k))
+
+RECURSIVE PosOfVal(_, _, _)
+PosOfVal(xs, v, i) == IF i > Len(xs) THEN 0 ELSE IF ValEq(xs[i], v) THEN i ELSE PosOfVal(xs, v, i + 1)
+
+\* map entries: xs = <<k1, v1, k2, v2, ...>>
+RECURSIVE KeyPos(_, _, _)
+KeyPos(xs, key, i) == IF i > Len(xs) THEN 0 ELSE IF ValEq(xs[i], key) THEN i ELSE KeyPos(xs, key, i + 2)
+
+\* slice bounds as the natives compute them: negative counts from the end, everything saturates
+SliceIdx(len, v) == IF v.n >= 0 THEN (IF v.n > len THEN len ELSE v.n) ELSE (IF len + v.n < 0 THEN 0 ELSE len + v.n)
+SliceOf(xs, a, b) == IF a < b THEN SubSeq(xs, a + 1, b) ELSE <<>>
+
+Upper(c) == IF c >= 97 /\ c <= 122 THEN c - 32 ELSE IF c = 233 THEN 201 ELSE c
+Lower(c) == IF c >= 65 /\ c <= 90 THEN c + 32 ELSE IF c = 201 THEN 233 ELSE c
+IsSpace(c) == c \in {32, 9, 10, 13}
+RECURSIVE TrimL(_), TrimR(_)
+TrimL(cp) == IF cp # <<>> /\ IsSpace(Head(cp)) THEN TrimL(Tail(cp)) ELSE cp
+TrimR(cp) == IF cp # <<>> /\ IsSpace(cp[Len(cp)]) THEN TrimR(SubSeq(cp, 1, Len(cp) - 1)) ELSE cp
+IsPrefix(p, s) == Len(p) <= Len(s) /\ SubSeq(s, 1, Len(p)) = p
+RECURSIVE HasSub(_, _)
+HasSub(s, p) == IF IsPrefix(p, s) THEN TRUE ELSE IF s = <<>> THEN FALSE ELSE HasSub(Tail(s), p)
+\* split on a non-empty separator: the pieces, in order
+RECURSIVE SplitCp(_, _, _)
+SplitCp(s, sep, acc) ==
+  IF s = <<>> THEN <<acc>>
+  ELSE IF IsPrefix(sep, s) THEN <<acc>> \o SplitCp(SubSeq(s, Len(sep) + 1, Len(s)), sep, <<>>)
+  ELSE SplitCp(Tail(s), sep, Append(acc, Head(s)))
+
+\* ----- iterators: heap object k = "iter", name = kind, xs[1] = current, further xs = parameters,
+\*       fn = position / count, cls = source iterator (heap id)
+MkIter(m, kind, params, src) == Alloc(m, Obj("iter", kind, <<Nil>> \o params, 0, 0, src, <<>>, <<>>, <<>>))
+RECURSIVE IterCur(_, _)
+IterCur(m, it) == IF m.heap[it].name \in {"take", "skip"} THEN IterCur(m, m.heap[it].cls) ELSE m.heap[it].xs[1]
+SetCur(m, it, v) == [m EXCEPT !.heap[it].xs[1] = v]
+
+\* iterator for a value (what `for` and the adaptors do first): lists, tuples, strings iterate their elements,
+\* an iterator is its own iterator
+IterOf(m, v, site) ==
+  IF v.t = "ref" /\ v.x = "iter" THEN Val(m, v)
+  ELSE IF v.t = "ref" /\ v.x \in {"list", "tuple", "map"} THEN
+         LET m1 == MkIter(m, IF v.x = "map" THEN "entries" ELSE v.x, <<v>>, 0) IN Val(m1, R(LastObj(m1), "iter"))
+  ELSE IF v.t = "str" THEN
+         LET m1 == MkIter(m, "pieces", [i \in 1 .. Len(v.cp) |-> S(<<v.cp[i]>>)], 0) IN Val(m1, R(LastObj(m1), "iter"))
+  ELSE Throw(m, "PropertyError", site)
+
+\* advance iterator `it`: delivers B(has) to the continuation, possibly after running callbacks
+Pull(m, it, site) ==
+  LET o == m.heap[it] kind == o.name IN
+  CASE kind \in {"list", "tuple"} ->
+         LET src == m.heap[o.xs[2].n].xs IN
+           IF o.fn < Len(src) THEN Val([SetCur(m, it, src[o.fn + 1]) EXCEPT !.heap[it].fn = @ + 1], B(TRUE))
+           ELSE Val(SetCur(m, it, Nil), B(FALSE))
+    [] kind = "entries" ->
+         LET src == m.heap[o.xs[2].n].xs IN
+           IF 2 * o.fn < Len(src)
+           THEN LET m1 == MkObj(m, "list", <<src[2 * o.fn + 1], src[2 * o.fn + 2]>>)
+                IN Val([SetCur(m1, it, R(LastObj(m1), "list")) EXCEPT !.heap[it].fn = @ + 1], B(TRUE))
+           ELSE Val(SetCur(m, it, Nil), B(FALSE))
+    [] kind = "pieces" ->
+         IF o.fn + 1 < Len(o.xs) THEN Val([SetCur(m, it, o.xs[o.fn + 2]) EXCEPT !.heap[it].fn = @ + 1], B(TRUE))
+         ELSE Val(SetCur(m, it, Nil), B(FALSE))
+    [] kind = "times" ->
+         IF o.fn < o.xs[2].n THEN Val([SetCur(m, it, N(o.fn)) EXCEPT !.heap[it].fn = @ + 1], B(TRUE))
+         ELSE Val(m, B(FALSE))
+    [] kind \in {"map", "filter"} -> Pull(PushK(m, Frame("p." \o kind, site, it, <<>>, m.env)), o.cls, site)
+    [] kind = "take" ->
+         IF o.fn >= o.xs[2].n THEN Val(m, B(FALSE))                          \* the limit is tested before the source is touched
+         ELSE Pull(PushK(m, Frame("p.take", site, it, <<>>, m.env)), o.cls, site)
+    [] kind = "skip" -> Pull(m, o.cls, site)
+    [] kind = "zip" -> Pull(PushK(m, Frame("p.zip", site, it, <<>>, m.env)), o.xs[2].n, site)
+    [] kind = "chain" ->
+         IF o.fn + 2 > Len(o.xs) THEN Val(m, B(FALSE))
+         ELSE Pull(PushK(m, Frame("p.chain", site, it, <<>>, m.env)), o.xs[o.fn + 2].n, site)
+    [] OTHER -> [m EXCEPT !.st = "model-error:pull:" \o kind, !.ctl = Ctl("halt", 0, Nil)]
+
+\* a value (the has-next boolean, or a callback result) arrives at an iterator frame
+IterFrame(m0, fr, v) ==
+  LET f == fr.f it == fr.i site == fr.n o == m0.heap[it] has == Truthy(v) IN
+  CASE f = "p.map" ->
+         IF has THEN Call(PushK(m0, Frame("p.map2", site, it, <<>>, fr.e)), o.xs[2], <<IterCur(m0, o.cls)>>, site)
+         ELSE Val(m0, B(FALSE))
+    [] f = "p.map2" -> Val(SetCur(m0, it, v), B(TRUE))
+    [] f = "p.filter" ->
+         IF has THEN Call(PushK(m0, Frame("p.filter2", site, it, <<>>, fr.e)), o.xs[2], <<IterCur(m0, o.cls)>>, site)
+         ELSE Val(m0, B(FALSE))
+    [] f = "p.filter2" ->
+         IF has THEN Val(SetCur(m0, it, IterCur(m0, o.cls)), B(TRUE))
+         ELSE Pull(PushK(m0, Frame("p.filter", site, it, <<>>, fr.e)), o.cls, site)
+    [] f = "p.take" -> IF has THEN Val([m0 EXCEPT !.heap[it].fn = @ + 1], B(TRUE)) ELSE Val(m0, B(FALSE))
+    [] f = "p.zip" ->
+         \* fr.vs collects the currents; o.xs[2..] are the zipped iterators, visited left to right
+         IF ~has THEN Val(m0, B(FALSE))
+         ELSE LET k == Len(fr.vs) + 2
+                  vs == Append(fr.vs, IterCur(m0, o.xs[k].n))
+              IN IF k < Len(o.xs) THEN Pull(PushK(m0, [fr EXCEPT !.vs = vs]), o.xs[k + 1].n, site)
+                 ELSE LET m1 == MkObj(m0, "tuple", vs) IN Val(SetCur(m1, it, R(LastObj(m1), "tuple")), B(TRUE))
+    [] f = "p.chain" ->
+         IF has THEN Val(SetCur(m0, it, IterCur(m0, o.xs[o.fn + 2].n)), B(TRUE))
+         ELSE Pull([m0 EXCEPT !.heap[it].fn = @ + 1], it, site)
+    \* ---- consumers
+    [] f = "c.next" -> Val(m0, B(has))
+    [] f = "c.first" -> Val(m0, IF has THEN IterCur(m0, it) ELSE Nil)
+    [] f = "c.each" ->
+         IF has THEN Call(PushK(m0, Frame("c.each2", site, it, fr.vs, fr.e)), fr.vs[1], <<IterCur(m0, it)>>, site)
+         ELSE Val(m0, Nil)
+    [] f = "c.each2" -> Pull(PushK(m0, Frame("c.each", site, it, fr.vs, fr.e)), it, site)
+    [] f = "c.reduce" ->
+         IF has THEN Call(PushK(m0, Frame("c.reduce2", site, it, fr.vs, fr.e)), fr.vs[1], <<fr.vs[2], IterCur(m0, it)>>, site)
+         ELSE Val(m0, fr.vs[2])
+    [] f = "c.reduce2" -> Pull(PushK(m0, Frame("c.reduce", site, it, <<fr.vs[1], v>>, fr.e)), it, site)
+    [] f \in {"c.all", "c.any"} ->
+         IF has THEN Call(PushK(m0, Frame(f \o "2", site, it, fr.vs, fr.e)), fr.vs[1], <<IterCur(m0, it)>>, site)
+         ELSE Val(m0, B(f = "c.all"))
+    [] f = "c.all2" -> IF has THEN Pull(PushK(m0, Frame("c.all", site, it, fr.vs, fr.e)), it, site) ELSE Val(m0, B(FALSE))
+    [] f = "c.any2" -> IF has THEN Val(m0, B(TRUE)) ELSE Pull(PushK(m0, Frame("c.any", site, it, fr.vs, fr.e)), it, site)
+    [] f = "c.last" ->
+         IF has THEN Pull(PushK(m0, Frame("c.last", site, it, <<IterCur(m0, it)>>, fr.e)), it, site) ELSE Val(m0, fr.vs[1])
+    [] f = "c.len" ->
+         IF has THEN Pull(PushK(m0, Frame("c.len", site, it, <<N(fr.vs[1].n + 1)>>, fr.e)), it, site) ELSE Val(m0, fr.vs[1])
+    [] f \in {"c.list", "c.tuple"} ->
+         IF has THEN Pull(PushK(m0, [fr EXCEPT !.vs = Append(@, IterCur(m0, it))]), it, site)
+         ELSE ValNew(m0, IF f = "c.list" THEN "list" ELSE "tuple", fr.vs)
+    [] f = "c.skip" ->
+         \* skip(n) advances its source while it is created
+         IF has /\ fr.vs[2].n + 1 < fr.vs[1].n
+         THEN Pull(PushK(m0, Frame("c.skip", site, it, <<fr.vs[1], N(fr.vs[2].n + 1)>>, fr.e)), it, site)
+         ELSE LET m1 == MkIter(m0, "skip", <<fr.vs[1]>>, it) IN Val(m1, R(LastObj(m1), "iter"))
+    [] OTHER -> [m0 EXCEPT !.st = "model-error:iterframe:" \o f, !.ctl = Ctl("halt", 0, Nil)]
+
+\* methods of iterators
+IterInvoke(m, itv, name, args, site) ==
+  LET it == itv.n n == Len(args) IN
+  CASE name = "iter" /\ n = 0 -> Val(m, itv)
+    [] name = "current" /\ n = 0 -> Val(m, IterCur(m, it))
+    [] name = "next" /\ n = 0 -> Pull(PushK(m, Frame("c.next", site, it, <<>>, m.env)), it, site)
+    [] name = "first" /\ n = 0 -> Pull(PushK(m, Frame("c.first", site, it, <<>>, m.env)), it, site)
+    [] name = "last" /\ n = 0 -> Pull(PushK(m, Frame("c.last", site, it, <<Nil>>, m.env)), it, site)
+    [] name = "list" /\ n = 0 -> Pull(PushK(m, Frame("c.list", site, it, <<>>, m.env)), it, site)
+    [] name \in {"map", "filter"} /\ n = 1 ->
+         IF ~(args[1].t = "ref" /\ args[1].x \in {"closure", "bound"}) THEN Throw(m, "RuntimeError", site)
+         ELSE LET m1 == MkIter(m, name, <<args[1]>>, it) IN Val(m1, R(LastObj(m1), "iter"))
+    [] name = "take" /\ n = 1 ->
+         IF ~IsInt(args[1]) THEN Throw(m, IF IsNum(args[1]) THEN "TypeError" ELSE "RuntimeError", site)
+         ELSE IF args[1].n < 0 THEN Throw(m, "TypeError", site)
+         ELSE LET m1 == MkIter(m, "take", <<args[1]>>, it) IN Val(m1, R(LastObj(m1), "iter"))
+    [] name = "skip" /\ n = 1 ->
+         IF ~IsInt(args[1]) THEN Throw(m, IF IsNum(args[1]) THEN "TypeError" ELSE "RuntimeError", site)
+         ELSE IF args[1].n < 0 THEN Throw(m, "TypeError", site)
+         ELSE IF args[1].n = 0 THEN LET m1 == MkIter(m, "skip", <<args[1]>>, it) IN Val(m1, R(LastObj(m1), "iter"))
+         ELSE Pull(PushK(m, Frame("c.skip", site, it, <<args[1], N(0)>>, m.env)), it, site)
+    [] name \in {"each", "all", "any"} /\ n = 1 ->
+         IF ~(args[1].t = "ref" /\ args[1].x \in {"closure", "bound"}) THEN Throw(m, "RuntimeError", site)
+         ELSE Pull(PushK(m, Frame("c." \o name, site, it, <<args[1]>>, m.env)), it, site)
+    [] name = "reduce" /\ n = 2 ->
+         IF ~(args[2].t = "ref" /\ args[2].x \in {"closure", "bound"}) THEN Throw(m, "RuntimeError", site)
+         ELSE Pull(PushK(m, Frame("c.reduce", site, it, <<args[2], args[1]>>, m.env)), it, site)
+    [] name = "into" /\ n = 1 -> Call(m, args[1], <<itv>>, site)
+    [] name \in {"zip", "chain"} /\ n >= 1 ->
+         IF \E i \in 1 .. n : ~(args[i].t = "ref" /\ args[i].x = "iter") THEN Throw(m, "RuntimeError", site)
+         ELSE LET m1 == MkIter(m, name, <<itv>> \o args, 0) IN Val(m1, R(LastObj(m1), "iter"))
+    [] OTHER -> Throw(m, IF n = 0 /\ name \notin {"map", "filter", "take", "skip", "each", "all", "any", "reduce", "into", "zip", "chain"}
+                         THEN "PropertyError" ELSE "RuntimeError", site)
+
+\* methods of lists, tuples, maps, strings, numbers (no callbacks)
+SeqInvoke(m, obj, name, args, site) ==
+  LET xs == m.heap[obj.n].xs len == Len(xs) n == Len(args) isList == obj.x = "list" IN
+  CASE name = "len" /\ n = 0 -> Val(m, N(len))
+    [] name = "push" /\ isList /\ n >= 1 -> Val([m EXCEPT !.heap[obj.n].xs = @ \o args], Nil)
+    [] name = "pop" /\ isList /\ n = 0 ->
+         IF len = 0 THEN Val(m, Nil) ELSE Val([m EXCEPT !.heap[obj.n].xs = SubSeq(@, 1, len - 1)], xs[len])
+    [] name = "insert" /\ isList /\ n = 2 ->
+         IF ~IsNum(args[1]) THEN Throw(m, "RuntimeError", site)
+         ELSE IF args[1].x = "frac" THEN Throw(m, "IndexError", site)
+         ELSE IF ~IsInt(args[1]) THEN Val(m, Poison)
+         ELSE IF args[1].n < 0 \/ args[1].n > len THEN Throw(m, "IndexError", site)
+         ELSE Val([m EXCEPT !.heap[obj.n].xs = SubSeq(xs, 1, args[1].n) \o <<args[2]>> \o SubSeq(xs, args[1].n + 1, len)], Nil)
+    [] name = "remove" /\ isList /\ n = 1 ->
+         IF ~IsNum(args[1]) THEN Throw(m, "RuntimeError", site)
+         ELSE IF args[1].x = "frac" THEN Throw(m, "IndexError", site)
+         ELSE IF ~IsInt(args[1]) THEN Val(m, Poison)
+         ELSE IF args[1].n < 0 \/ args[1].n >= len THEN Throw(m, "IndexError", site)
+         ELSE Val([m EXCEPT !.heap[obj.n].xs = SubSeq(xs, 1, args[1].n) \o SubSeq(xs, args[1].n + 2, len)], xs[args[1].n + 1])
+    [] name = "clear" /\ isList /\ n = 0 -> Val([m EXCEPT !.heap[obj.n].xs = <<>>], Nil)
+    [] name = "has" /\ n = 1 -> Val(m, B(PosOfVal(xs, args[1], 1) # 0))
+    [] name = "index" /\ n = 1 -> LET p == PosOfVal(xs, args[1], 1) IN Val(m, IF p = 0 THEN Nil ELSE N(p - 1))
+    [] name = "rev" /\ isList /\ n = 0 -> ValNew(m, "list", [i \in 1 .. len |-> xs[len + 1 - i]])
+    [] name = "slice" /\ n <= 2 ->
+         IF \E i \in 1 .. n : ~IsNum(args[i]) THEN Throw(m, "RuntimeError", site)
+         ELSE IF \E i \in 1 .. n : args[i].x = "frac" THEN Throw(m, "IndexError", site)
+         ELSE IF \E i \in 1 .. n : ~IsInt(args[i]) THEN Val(m, Poison)
+         ELSE LET a == IF n >= 1 THEN SliceIdx(len, args[1]) ELSE 0
+                  b == IF n = 2 THEN SliceIdx(len, args[2]) ELSE len
+              IN ValNew(m, obj.x, SliceOf(xs, a, b))
+    [] name = "str" /\ n = 0 -> Val(m, S(Show(m, obj)))
+    [] name = "iter" /\ n = 0 -> IterOf(m, obj, site)
+    [] OTHER -> Throw(m, IF name \in {"len", "push", "pop", "insert", "remove", "clear", "has", "index", "rev", "slice", "str", "iter", "sort"}
+                         THEN "RuntimeError" ELSE "PropertyError", site)
+
+MapInvoke(m, obj, name, args, site) ==
+  LET xs == m.heap[obj.n].xs n == Len(args)
+      p == IF n >= 1 THEN KeyPos(xs, args[1], 1) ELSE 0
+  IN
+  CASE name = "len" /\ n = 0 -> Val(m, N(Len(xs) \div 2))
+    [] name = "has" /\ n = 1 -> Val(m, B(p # 0))
+    [] name = "get" /\ n = 1 -> Val(m, IF p = 0 THEN Nil ELSE xs[p + 1])
+    [] name \in {"set", "insert"} /\ n = 2 ->
+         IF p = 0 THEN Val([m EXCEPT !.heap[obj.n].xs = @ \o <<args[1], args[2]>>], Nil)
+         ELSE Val([m EXCEPT !.heap[obj.n].xs[p + 1] = args[2]], xs[p + 1])
+    [] name = "remove" /\ n = 1 ->
+         IF p = 0 THEN Throw(m, "KeyError", site)
+         ELSE Val([m EXCEPT !.heap[obj.n].xs = SubSeq(xs, 1, p - 1) \o SubSeq(xs, p + 2, Len(xs))], xs[p + 1])
+    [] name = "iter" /\ n = 0 -> IterOf(m, obj, site)
+    [] OTHER -> Throw(m, IF name \in {"len", "has", "get", "set", "insert", "remove", "iter", "str"} THEN "RuntimeError" ELSE "PropertyError", site)
+
+StrInvoke(m, obj, name, args, site) ==
+  LET cp == obj.cp len == Len(cp) n == Len(args) IN
+  CASE name = "len" /\ n = 0 -> Val(m, N(len))
+    [] name = "str" /\ n = 0 -> Val(m, obj)
+    [] name = "has" /\ n = 1 -> IF IsStr(args[1]) THEN Val(m, B(HasSub(cp, args[1].cp))) ELSE Throw(m, "RuntimeError", site)
+    [] name = "upCase" /\ n = 0 -> Val(m, S([i \in 1 .. len |-> Upper(cp[i])]))
+    [] name = "downCase" /\ n = 0 -> Val(m, S([i \in 1 .. len |-> Lower(cp[i])]))
+    [] name = "trim" /\ n = 0 -> Val(m, S(TrimR(TrimL(cp))))
+    [] name = "trimStart" /\ n = 0 -> Val(m, S(TrimL(cp)))
+    [] name = "trimEnd" /\ n = 0 -> Val(m, S(TrimR(cp)))
+    [] name = "slice" /\ n <= 2 ->
+         IF \E i \in 1 .. n : ~IsNum(args[i]) THEN Throw(m, "RuntimeError", site)
+         ELSE IF \E i \in 1 .. n : args[i].x = "frac" THEN Throw(m, "IndexError", site)
+         ELSE IF \E i \in 1 .. n : ~IsInt(args[i]) THEN Val(m, Poison)
+         ELSE LET a == IF n >= 1 THEN SliceIdx(len, args[1]) ELSE 0
+                  b == IF n = 2 THEN SliceIdx(len, args[2]) ELSE len
+              IN Val(m, S(SliceOf(cp, a, b)))
+    [] name = "split" /\ n = 1 ->
+         IF ~IsStr(args[1]) THEN Throw(m, "RuntimeError", site)
+         ELSE IF args[1].cp = <<>> THEN Val(m, Poison)            \* splitting on "" is not modelled
+         ELSE LET pieces == SplitCp(cp, args[1].cp, <<>>)
+                  m1 == MkIter(m, "pieces", [i \in 1 .. Len(pieces) |-> S(pieces[i])], 0)
+              IN Val(m1, R(LastObj(m1), "iter"))
+    [] name = "iter" /\ n = 0 -> IterOf(m, obj, site)
+    [] OTHER -> Throw(m, IF name \in {"len", "str", "has", "upCase", "downCase", "trim", "trimStart", "trimEnd", "slice", "split", "iter"}
+                         THEN "RuntimeError" ELSE "PropertyError", site)
+
+\* ---------------------------------------------------------------------------
 \* Property access
 FieldIdx(m, inst, name) == IndexOf(m.heap[m.heap[inst].cls].ks, name)
 
@@ -342,6 +599,8 @@ GetProp(m, obj, name, site) ==
              IF meth.t = "nil" THEN Throw(m, "RuntimeError", site)
              ELSE LET m1 == Alloc(m, Obj("bound", name, <<obj, meth>>, 0, 0, 0, <<>>, <<>>, <<>>))
                   IN Val(m1, R(LastObj(m1), "bound"))
+  ELSE IF obj.t = "ref" /\ obj.x = "class" /\ name = "collect" /\ m.heap[obj.n].name \in {"List", "Tuple"} /\ obj.n <= Len(BuiltinClasses) THEN
+    Val(m, V("native", 0, m.heap[obj.n].name \o ".collect", <<>>))
   ELSE IF obj.t = "ref" /\ obj.x = "class" THEN
     \* static methods live on the class itself
     LET i == IndexOf(m.heap[obj.n].sk, name) IN
@@ -374,13 +633,15 @@ Invoke(m, obj, name, args, site) ==
   ELSE IF obj.t = "ref" /\ obj.x = "modinst" THEN
     LET i == IndexOf(m.heap[obj.n].ks, name) IN
       IF i = 0 THEN Throw(m, "PropertyError", site) ELSE Call(m, m.heap[obj.n].xs[i], args, site)
-  ELSE IF obj.t = "ref" /\ obj.x = "list" /\ name = "len" /\ args = <<>> THEN Val(m, N(Len(m.heap[obj.n].xs)))
-  ELSE IF obj.t = "ref" /\ obj.x = "list" /\ name = "push" /\ Len(args) >= 1 THEN
-         Val([m EXCEPT !.heap[obj.n].xs = @ \o args], Nil)
-  ELSE IF obj.t = "str" /\ name = "len" /\ args = <<>> THEN Val(m, N(Len(obj.cp)))
-  ELSE IF obj.t \in {"str", "num", "bool", "nil"} /\ name = "str" /\ args = <<>> THEN Val(m, S(Show(m, obj)))
-  ELSE IF IsInt(obj) /\ obj.n >= 0 /\ name = "times" /\ args = <<>> THEN
-         LET m1 == Alloc(m, Obj("range", "", <<>>, obj.n, 0, 0, <<>>, <<>>, <<>>)) IN Val(m1, R(LastObj(m1), "range"))
+  ELSE IF obj.t = "ref" /\ obj.x \in {"list", "tuple"} THEN SeqInvoke(m, obj, name, args, site)
+  ELSE IF obj.t = "ref" /\ obj.x = "map" THEN MapInvoke(m, obj, name, args, site)
+  ELSE IF obj.t = "ref" /\ obj.x = "iter" THEN IterInvoke(m, obj, name, args, site)
+  ELSE IF obj.t = "str" THEN StrInvoke(m, obj, name, args, site)
+  ELSE IF obj.t \in {"num", "bool", "nil"} /\ name = "str" /\ args = <<>> THEN Val(m, S(Show(m, obj)))
+  ELSE IF IsNum(obj) /\ name = "times" /\ args = <<>> THEN
+         IF IsInt(obj) /\ obj.n >= 0 THEN LET m1 == MkIter(m, "times", <<obj>>, 0) IN Val(m1, R(LastObj(m1), "iter"))
+         ELSE IF obj.x \in {"", "nzero"} /\ obj.n < 0 THEN Throw(m, "ValueError", site) ELSE Val(m, Poison)
+  ELSE IF IsInt(obj) /\ name \in {"floor", "ceil", "round"} /\ args = <<>> THEN Val(m, obj)
   ELSE Throw(m, "PropertyError", site)
 
 \* ---------------------------------------------------------------------------
@@ -407,7 +668,7 @@ EvalNode(m, n) ==
          LET loc == Lookup(m, m.env, nd.s) IN
            IF loc = 0 THEN Throw(m, "RuntimeError", n)
            ELSE Ev(PushK(m, Frame(k, n, 1, <<m.store[loc]>>, m.env)), Kid(n, 1))
-    [] k \in {"call", "invoke", "list", "tuple", "superinvoke"} ->
+    [] k \in {"call", "invoke", "list", "tuple", "superinvoke", "map"} ->
          IF NKids(n) = 0 THEN [PushK(m, Frame(k, n, 0, <<>>, m.env)) EXCEPT !.ctl = Ctl("val", 0, Nil)]
          ELSE Ev(PushK(m, Frame(k, n, 1, <<>>, m.env)), Kid(n, 1))
     [] k = "lambda" ->
@@ -534,9 +795,13 @@ AddMembers(m, members, i, ce, cid) ==
                  ELSE [m1 EXCEPT !.heap[cid].mk = Append(@, Node(fn).s), !.heap[cid].mv = Append(@, c)]
        IN AddMembers(m2, members, i + 1, ce, cid)
 
+IterFrames == {"p.map", "p.map2", "p.filter", "p.filter2", "p.take", "p.zip", "p.chain", "c.next", "c.first", "c.each", "c.each2",
+               "c.reduce", "c.reduce2", "c.all", "c.any", "c.all2", "c.any2", "c.last", "c.len", "c.list", "c.tuple", "c.skip"}
+
 ValueAt(m, v) ==
   LET fr == TopK(m) f == fr.f n == fr.n m0 == PopK(m) IN
-  CASE f = "exprst" -> Nxt(m0)
+  CASE f \in IterFrames -> IterFrame(m0, fr, v)
+    [] f = "exprst" -> Nxt(m0)
     [] f = "exprbody" -> [m0 EXCEPT !.ctl = Ctl("ret", n, v)]
     [] f = "let" -> Nxt(Declare(m0, m0.env, Node(n).s, v))
     [] f = "letset" -> Nxt([m0 EXCEPT !.store[fr.i] = v])
@@ -606,19 +871,37 @@ ValueAt(m, v) ==
          ELSE LET o == fr.vs[1] IN
                 IF o.t = "ref" /\ o.x \in {"list", "tuple"} THEN
                   LET xs == m0.heap[o.n].xs len == Len(xs) IN
-                    IF ~IsInt(v) THEN Throw(m0, "RuntimeError", n)
+                    IF ~IsNum(v) THEN Throw(m0, "RuntimeError", n)
+                    ELSE IF v.x = "frac" THEN ThrowN(m0, "IndexError", n, "[]")      \* "Index must be an integer."
+                    ELSE IF ~IsInt(v) THEN Val(m0, Poison)
                     ELSE LET ix == IF v.n < 0 THEN len + v.n ELSE v.n IN
                            IF ix < 0 \/ ix >= len THEN ThrowN(m0, "IndexError", n, "[]") ELSE Val(m0, xs[ix + 1])
+                ELSE IF o.t = "ref" /\ o.x = "map" THEN
+                  LET p == KeyPos(m0.heap[o.n].xs, v, 1) IN
+                    IF p = 0 THEN ThrowN(m0, "KeyError", n, "[]") ELSE Val(m0, m0.heap[o.n].xs[p + 1])
+                ELSE IF o.t = "str" THEN
+                  LET len == Len(o.cp) IN
+                    IF ~IsNum(v) THEN Throw(m0, "RuntimeError", n)
+                    ELSE IF v.x = "frac" THEN ThrowN(m0, "IndexError", n, "[]")
+                    ELSE IF ~IsInt(v) THEN Val(m0, Poison)
+                    ELSE LET ix == IF v.n < 0 THEN len + v.n ELSE v.n IN
+                           IF ix < 0 \/ ix >= len THEN ThrowN(m0, "IndexError", n, "[]") ELSE Val(m0, S(<<o.cp[ix + 1]>>))
                 ELSE Throw(m0, "RuntimeError", n)
     [] f = "indexset" ->
          IF fr.i < 3 THEN Ev(PushK(m0, [fr EXCEPT !.i = @ + 1, !.vs = Append(@, v)]), Kid(n, fr.i + 1))
          ELSE LET o == fr.vs[1] ixv == fr.vs[2] IN
                 IF o.t = "ref" /\ o.x = "list" THEN
                   LET len == Len(m0.heap[o.n].xs) IN
-                    IF ~IsInt(ixv) THEN Throw(m0, "RuntimeError", n)
+                    IF ~IsNum(ixv) THEN Throw(m0, "RuntimeError", n)
+                    ELSE IF ixv.x = "frac" THEN ThrowN(m0, "IndexError", n, "[]=")
+                    ELSE IF ~IsInt(ixv) THEN Val(m0, Poison)
                     ELSE LET ix == IF ixv.n < 0 THEN len + ixv.n ELSE ixv.n IN
                            IF ix < 0 \/ ix >= len THEN ThrowN(m0, "IndexError", n, "[]=")
                            ELSE Val([m0 EXCEPT !.heap[o.n].xs[ix + 1] = v], v)
+                ELSE IF o.t = "ref" /\ o.x = "map" THEN
+                  LET p == KeyPos(m0.heap[o.n].xs, ixv, 1) IN
+                    IF p = 0 THEN Val([m0 EXCEPT !.heap[o.n].xs = @ \o <<ixv, v>>], v)
+                    ELSE Val([m0 EXCEPT !.heap[o.n].xs[p + 1] = v], v)
                 ELSE Throw(m0, "RuntimeError", n)
     [] f = "interp" ->
          \* "a${e}b": every segment is converted with str()
@@ -636,16 +919,30 @@ ValueAt(m, v) ==
                   m1 == AddMembers(MakeClass(m0, n, v), members, 1, ce, cid)
               IN Nxt(Declare(m1, m0.env, Node(n).s, R(cid, "class")))
     [] f = "forinit" ->
-         \* the iterable: n.times() is modelled as the number n; a list iterates its elements
+         \* the iterable's iterator (lists, tuples, strings, maps iterate their elements; an iterator is itself)
+         IterOf(PushK(m0, Frame("forinit2", n, 0, <<>>, m0.env)), v, n)
+    [] f = "forinit2" ->
+         \* one item variable for the whole loop
          LET m1 == NewEnv(m0, m0.env)
              e == LastEnv(m1)
              m2 == Declare(m1, e, Node(n).s, Nil)
-             items == IF v.t = "ref" /\ v.x = "list" THEN m0.heap[v.n].xs
-                      ELSE IF v.t = "ref" /\ v.x = "range" THEN [i \in 1 .. m0.heap[v.n].fn |-> N(i - 1)]
-                      ELSE <<>>
-         IN IF ~(v.t = "ref" /\ v.x \in {"list", "range"}) THEN Throw(m0, "RuntimeError", n)
-            ELSE [PushK(PushK(m2, Frame("loop", n, 0, <<>>, m0.env)), Frame("foriter", n, 0, items, e))
-                    EXCEPT !.env = e, !.ctl = Ctl("nxt", 0, Nil)]
+         IN [PushK(PushK(m2, Frame("loop", n, 0, <<>>, m0.env)), Frame("foriter", n, v.n, <<>>, e))
+               EXCEPT !.env = e, !.ctl = Ctl("nxt", 0, Nil)]
+    [] f = "forpull" ->
+         \* m0 has the foriter frame on top
+         IF Truthy(v) THEN
+           LET it == TopK(m0) loc == Lookup(m0, it.e, Node(n).s) IN
+             Ex([m0 EXCEPT !.store[loc] = IterCur(m0, it.i), !.env = it.e], Kid(n, 2))
+         ELSE LET m1 == PopK(m0) IN [Nxt(PopK(m1)) EXCEPT !.env = TopK(m1).e]
+    [] f = "map" ->
+         \* map literal: kids alternate key, value; a later equal key replaces the earlier entry's value
+         LET vs == IF fr.i = 0 THEN <<>> ELSE Append(fr.vs, v) IN
+           IF fr.i < NKids(n) /\ fr.i # 0 THEN Ev(PushK(m0, [fr EXCEPT !.i = @ + 1, !.vs = vs]), Kid(n, fr.i + 1))
+           ELSE LET RECURSIVE build(_, _)
+                    build(i, acc) == IF i > Len(vs) THEN acc
+                                     ELSE LET p == KeyPos(acc, vs[i], 1) IN
+                                            build(i + 2, IF p = 0 THEN acc \o <<vs[i], vs[i + 1]>> ELSE [acc EXCEPT ![p + 1] = vs[i + 1]])
+                IN ValNew(m0, "map", build(1, <<>>))
     [] OTHER -> [m0 EXCEPT !.st = "model-error:val:" \o f, !.ctl = Ctl("halt", 0, Nil)]
 
 \* ---------------------------------------------------------------------------
@@ -660,11 +957,7 @@ NextAt(m) ==
          IF fr.i <= NKids(n) THEN Ex(PushK(m0, [fr EXCEPT !.i = @ + 1]), Kid(n, fr.i))
          ELSE [m0 EXCEPT !.st = "ok", !.ctl = Ctl("halt", 0, Nil)]
     [] f = "whilebody" -> Ev(PushK(m0, Frame("whilecond", n, 0, <<>>, m0.env)), Kid(n, 1))
-    [] f = "foriter" ->
-         IF fr.i < Len(fr.vs)
-         THEN LET loc == Lookup(m0, fr.e, Node(n).s) IN
-                Ex([PushK(m0, [fr EXCEPT !.i = @ + 1]) EXCEPT !.store[loc] = fr.vs[fr.i + 1], !.env = fr.e], Kid(n, 2))
-         ELSE [Nxt(PopK(m0)) EXCEPT !.env = TopK(m0).e]       \* pop the loop marker, restore the env
+    [] f = "foriter" -> Pull(PushK(m, Frame("forpull", n, fr.i, <<>>, fr.e)), fr.i, n)
     [] f = "try" -> Nxt(m0)                               \* try block completed: handler deactivated
     [] f = "export" ->
          LET name == Node(Kid(n, 1)).s IN
